@@ -57,12 +57,12 @@ theorem public_bytes_chain (verify : Bool) (d : List UInt8) (r : StreamResult)
 theorem public_bytes_exact (verify : Bool) (d : List UInt8)
     (plain : Array Nat) (bytes : Array UInt8) (n : Nat) (q : Params)
     (h : decompressBytes Est.estimate Chains.pred verify d = .ok (plain, bytes, n, q))
-    (hd : d.length < 2 ^ 29) :
+    (hd : d.length < 2 ^ 61) :
     recompressBytes Chains.pred plain bytes = .ok (d.take n) :=
   Proofs.public_bytes_exact verify d plain bytes n q h hd
 
 /-- both verify settings of the byte-level function return the same result -/
-theorem public_bytes_verify_same (d : List UInt8) (hd : d.length < 2 ^ 29)
+theorem public_bytes_verify_same (d : List UInt8) (hd : d.length < 2 ^ 61)
     (plain : Array Nat) (bytes : Array UInt8) (n : Nat) (q : Params) :
     decompressBytes Est.estimate Chains.pred true d = .ok (plain, bytes, n, q) ↔
     decompressBytes Est.estimate Chains.pred false d = .ok (plain, bytes, n, q) :=
@@ -74,7 +74,7 @@ theorem recompressBytes_decompressBytes {H : Type} (est : Array Nat → List Blo
     (mk : Params → Pred H) (hb : ∀ q, PredBounded (mk q)) (verify : Bool) (d : List UInt8)
     (hest : ∀ p, parse d = .ok p → ∀ q, est p.plain p.blocks = .ok q → EstimatorRange q)
     (plain : Array Nat) (bytes : Array UInt8) (n : Nat) (q : Params)
-    (h : decompressBytes est mk verify d = .ok (plain, bytes, n, q)) (hd : d.length < 2 ^ 29) :
+    (h : decompressBytes est mk verify d = .ok (plain, bytes, n, q)) (hd : d.length < 2 ^ 61) :
     recompressBytes mk plain bytes = .ok (d.take n) :=
   Proofs.recompressBytes_decompressBytes est mk hb verify d hest plain bytes n q h hd
 
